@@ -479,7 +479,7 @@ def _jobs_for(prop, tier):
         return [j for j in jobs_option_below(tier) if j[1][3] == 'combinations'] + jobs_combinations(tier) + jobs_axis0(tier, 'combinations') + jobs_record_below(tier, ('combinations',))
     if prop == 'C03':
         return jobs_c03(tier) + jobs_option_reduce(tier) + jobs_axis(tier, ('reduce',)) + jobs_reduce_nonlocal(tier) + jobs_unmasked_passthrough(('reduce_next',)) + jobs_record_reduce(tier)
-    return {'C02': (lambda t: jobs_c02(t) + jobs_numpy_toregular(t) + jobs_regular_getitem_jagged(t) + jobs_list_asslice(t) + jobs_indexed_widths(t)), 'C03': jobs_c03, 'C04': (lambda t: jobs_c04(t) + jobs_numpy_toregular(t)), 'C06': (lambda t: jobs_c06(t) + jobs_axis(t, ('sort', 'argsort')) + jobs_numpy_sort(t) + jobs_sort_nonlocal(t) + jobs_option_sort(t) + jobs_option_sort_above(t) + jobs_option_argsort(t) + jobs_string_argsort(t) + jobs_unmasked_passthrough(('sort_next', 'argsort_next'))), 'C08': (lambda t: jobs_c08(t) + jobs_numpy(t) + jobs_numpy_types(t) + jobs_union(t) + jobs_reverse_merge(t) + jobs_record_merge(t) + jobs_list_merge(t) + [j for j in jobs_record_named(t) if j[0] is h_record_mergemany_named] + jobs_merge_union(t) + jobs_union_ops(t)), 'C17': (lambda t: jobs_c17(t) + jobs_record_keys(t)), 'C12': (lambda t: jobs_numpy(t) + jobs_numpy_astype(t) + [(h_index_alloc, (), 900)] + [(h_axis0, (L_, 'combinations', n_, True), 900) for L_, n_ in ((1, 2), (2, 3), (1, 3), (0, 2))] + [j for j in jobs_numpy_getitem(t) if j[1][3] == 'array']), 'C10': (lambda t: jobs_c10(t) + [j for j in jobs_record_named(t) if j[0] is h_record_field_key] + jobs_project(t) + [j for j in jobs_option_below(t) if j[1][3] in ('getitem_field', 'getitem_fields')] + jobs_record_setitem(t)), 'C05': jobs_c05, 'C09': jobs_c09}.get(prop, lambda t: [])(tier)
+    return {'C02': (lambda t: jobs_c02(t) + jobs_numpy_toregular(t) + jobs_regular_getitem_jagged(t) + jobs_list_asslice(t) + jobs_indexed_widths(t)), 'C03': jobs_c03, 'C04': (lambda t: jobs_c04(t) + jobs_numpy_toregular(t)), 'C06': (lambda t: jobs_c06(t) + jobs_axis(t, ('sort', 'argsort')) + jobs_numpy_sort(t) + jobs_sort_nonlocal(t) + jobs_option_sort(t) + jobs_option_sort_above(t) + jobs_option_argsort(t) + jobs_string_argsort(t) + jobs_unmasked_passthrough(('sort_next', 'argsort_next'))), 'C08': (lambda t: jobs_c08(t) + jobs_numpy(t) + jobs_numpy_types(t) + jobs_union(t) + jobs_reverse_merge(t) + jobs_record_merge(t) + jobs_list_merge(t) + [j for j in jobs_record_named(t) if j[0] is h_record_mergemany_named] + jobs_merge_union(t) + jobs_union_ops(t)), 'C17': (lambda t: jobs_c17(t) + jobs_record_keys(t) + jobs_record_key_at(t)), 'C12': (lambda t: jobs_numpy(t) + jobs_numpy_astype(t) + [(h_index_alloc, (), 900)] + [(h_axis0, (L_, 'combinations', n_, True), 900) for L_, n_ in ((1, 2), (2, 3), (1, 3), (0, 2))] + [j for j in jobs_numpy_getitem(t) if j[1][3] == 'array']), 'C10': (lambda t: jobs_c10(t) + [j for j in jobs_record_named(t) if j[0] is h_record_field_key] + jobs_project(t) + [j for j in jobs_option_below(t) if j[1][3] in ('getitem_field', 'getitem_fields')] + jobs_record_setitem(t) + jobs_record_key_at(t)), 'C05': jobs_c05, 'C09': jobs_c09}.get(prop, lambda t: [])(tier)
 
 
 # ------------------------------------------------------------------------------------------------ C01: getitem_next of list nodes
@@ -5482,6 +5482,108 @@ def h_record_keys(names, nfields, key):
     obls.append(('haskey("%s") is %s' % (key, has), z3.Or(o3.raised, (r3 == 1) != z3.BoolVal(has))))
     return mdischarge(nc.m, 'RecordArray %s keys / haskey("%s")' % (list(names) if named else 'tuple of %d' % nfields, key), obls, [], replay=None,
                       extra=dict(bounds='field names and the key concrete (case split)'))
+
+
+@guard
+def h_record_key_at(names, nfields, position=None):
+    """RecordArray::key(fieldindex) for any 64-bit position: the name of that field (the position spelled out for a tuple) when 0 <= position <
+    numfields, refused with std::invalid_argument otherwise - also below zero"""
+    named = names is not None
+    nc = NodeCtx(['REC', 'IA', 'IDX', 'CNT', 'UTL', 'KD', 'IDS'], [], unwind=max(16, 6 * nfields + 12))
+    nc.m.eng.stubs.update(string_stubs(nc))
+    nc.m.eng.stubs.update(nodeh.STRING_LENGTH_STUBS)          # error texts: lengths only
+    nc.m.eng.stubs['_ZNSt7__cxx119to_stringEl'] = s_to_string_sym
+    if named:
+        this, vals, lens = build_named_record(nc, tuple(names), 2)
+        expect = list(names)
+    else:
+        this, vals, lens = build_record(nc, nfields, 2)
+        expect = [str(i) for i in range(nfields)]
+    pos = nc.m.bv('fieldindex')
+    if position is not None:          # (named fields: the names are a vector of string objects, read at a concrete position - case split)
+        nc.m.assume(pos == position)
+    nc.m.record('ret', {})
+    out = nc.m.call('_ZNK7awkward11RecordArray3keyB5cxx11El', [Ptr('ret', 0), this, pos if position is None else BV(position)])
+    inside = z3.And(pos >= 0, pos < len(expect))
+    obls = [('raises exactly when the position is outside 0 <= position < numfields', out.raised != z3.Not(inside))]
+    ty = out.mem.o.get('exc!type')
+    if ty is not None:
+        obls.append(('a position outside is refused with std::invalid_argument', z3.And(out.raised, ty.cells[0][0] != nc.m.eng.typeid_of('_ZTISt16invalid_argument'))))
+    ln = out.mem.o['ret'].cells.get(8)
+    if ln is not None:
+        for i, nm in enumerate(expect):
+            obls.append(('position %d: a name of %d characters' % (i, len(nm)), z3.And(z3.Not(out.raised), pos == i, ln[0] != len(nm))))
+
+    def replay(model, ent):
+        v = model.eval(pos, model_completion=True).as_signed_long()
+        drv = KEYAT_DRIVER
+        try:
+            exe = fullnative.link_driver(drv, 'reckeyat')
+        except Exception as e:      # noqa
+            return False, 'replay driver did not build: %s' % str(e)[-400:], {}
+        import subprocess, os
+        want = expect[v] if 0 <= v < len(expect) else '!'
+        r = subprocess.run([exe, str(v), want, '1' if named else '0'] + expect, capture_output=True, text=True, timeout=30, env=dict(os.environ, ASAN_OPTIONS='detect_leaks=0'), errors='replace')
+        payload = dict(fields=expect, named=named, position=v, expected=want, native=r.stdout.strip())
+        if r.returncode != 0:
+            return True, '%s %s asked for key(%d): native %s (expected %s)' % ('record array' if named else 'tuple array', expect, v, r.stdout.strip() or r.stderr[-200:], 'std::invalid_argument' if want == '!' else want), payload
+        return False, 'native agrees (%s)' % r.stdout.strip(), payload
+    tw = [('a position inside', inside), ('a position outside', z3.Not(inside))] if position is None else []
+    return mdischarge(nc.m, 'RecordArray %s key(%s)' % (list(names) if named else 'tuple of %d' % nfields, 'position' if position is None else position), obls, tw, replay=replay,
+                      prefer=[pos >= -3, pos <= 5], extra=dict(bounds='field names concrete (case split), the position any 64-bit value'))
+
+
+KEYAT_DRIVER = r"""
+#include <cstdio>
+#include <cstring>
+#include <cstdlib>
+#include <string>
+#include <vector>
+#include <memory>
+#include <stdexcept>
+#include "awkward/Index.h"
+#include "awkward/Identities.h"
+#include "awkward/array/NumpyArray.h"
+#include "awkward/array/RecordArray.h"
+using namespace awkward;
+int main(int argc, char** argv) {
+  // argv: position, expected name ("!" = refused), named?, field names...
+  long long pos = atoll(argv[1]);
+  std::string want(argv[2]);
+  bool named = argv[3][0] == '1';
+  int nf = argc - 4;
+  ContentPtrVec contents;
+  util::RecordLookupPtr lookup = named ? std::make_shared<util::RecordLookup>() : util::RecordLookupPtr(nullptr);
+  for (int k = 0; k < nf; k++) {
+    Index64 v(2);
+    v.setitem_at_nowrap(0, 100 * k); v.setitem_at_nowrap(1, 100 * k + 1);
+    contents.push_back(std::make_shared<NumpyArray>(v));
+    if (named) lookup.get()->push_back(std::string(argv[4 + k]));
+  }
+  RecordArray rec(Identities::none(), util::Parameters(), contents, lookup, 2);
+  std::string got;
+  try { got = rec.key((int64_t)pos); }
+  catch (std::invalid_argument& e) { got = "!"; }
+  catch (std::exception& e) { got = std::string("other exception: ") + e.what(); }
+  printf("key=%s\\n", got.c_str());
+  return got == want ? 0 : 1;
+}
+"""
+
+
+def s_to_string_sym(eng, fr, ins, st, name, argv):
+    """std::to_string: the real text for a concrete small number, otherwise a non-empty text of unknown length"""
+    v = z3.simplify(argv[1])
+    if z3.is_bv_value(v):
+        return s_to_string(eng, fr, ins, st, name, argv)
+    return nodeh.s_some_string(eng, fr, ins, st, name, argv)
+
+
+def jobs_record_key_at(tier):
+    q = [(None, 2)] + [(('a', 'bc'), 2, p_) for p_ in (-1, 0, 1, 2, -2 ** 63)]
+    if tier != 'quick':
+        q += [(None, 0), (None, 3)] + [((), 0, p_) for p_ in (-1, 0)] + [(('x', 'yy', 'zzz'), 3, p_) for p_ in (-3, 2, 3, 2 ** 40)]
+    return [(h_record_key_at, a, 900) for a in q]
 
 
 def jobs_record_keys(tier):
